@@ -3,12 +3,14 @@ package value
 import (
 	"fmt"
 	"sync"
+	"sync/atomic"
 )
 
 var WaitGroupClass *Class // ::Std::Sync::WaitGroup
 
 type WaitGroup struct {
 	Native sync.WaitGroup
+	count  atomic.Int64 // mirrors the counter of Native
 }
 
 func WaitGroupConstructor(class *Class) Value {
@@ -47,22 +49,40 @@ func (w *WaitGroup) InstanceVariables() *InstanceVariables {
 	return nil
 }
 
-func (w *WaitGroup) Add(n int) {
+func (w *WaitGroup) Add(n int) (err Value) {
+	if n < 0 {
+		return w.Remove(-n)
+	}
+	w.count.Add(int64(n))
 	w.Native.Add(n)
+	return Undefined
 }
 
-func (w *WaitGroup) Remove(n int) {
+// Decrements the counter by `n`, the counter of the native wait group
+// must never drop below zero, it panics and stays unusable when it does.
+func (w *WaitGroup) Remove(n int) (err Value) {
+	for {
+		count := w.count.Load()
+		if count < int64(n) {
+			return Ref(NewError(OutOfRangeErrorClass, "wait group counter cannot be negative"))
+		}
+		if w.count.CompareAndSwap(count, count-int64(n)) {
+			break
+		}
+	}
 	for range n {
 		w.Native.Done()
 	}
+	return Undefined
 }
 
 func (w *WaitGroup) Start() {
+	w.count.Add(1)
 	w.Native.Add(1)
 }
 
-func (w *WaitGroup) End() {
-	w.Native.Done()
+func (w *WaitGroup) End() (err Value) {
+	return w.Remove(1)
 }
 
 func (w *WaitGroup) Wait() {
